@@ -12,8 +12,8 @@ CHECK = {
            'a state is the concrete registry layout plus the shadow ledger; distinct_nontrivial = states with at least one displaced registry entry; '
            'a second address layout (residues=B) puts two homes in the second-to-last slot and one in the last; rootsleft=1 instances end the program without deleting its root objects (leaked by design) and still require every other object to be finalised exactly once; ladders take the registry through sizes 53..389 with colliding strides; "temps=K" instances: every destructor allocates K collector-managed temporaries and deletes them before returning, in the state graph, the ownership graphs and the exit programs'),
   'bounds': {
-    'quick': 'teardown at worker-thread exit and at program exit (atexit) after every program of length <= 5 over 6 operations; ownership graphs (two owning pointers per object, cycles and shared ownership inside a cycle included) on 3 objects x {forced collection, teardown, explicit del of each} x every address order; 4 arena addresses to fixpoint (gcc), 3 under ASan; ladders to 250 objects x 6 strides x 3 delete orders x 3 root patterns',
-    'thorough': 'ownership graphs on 3 and 4 objects; 5 arena addresses (gcc; global deadline 14 min, evidence says whether the fixpoint was reached), 4 under ASan to fixpoint; ladders to 300 objects',
+    'quick': 'teardown at worker-thread exit and at program exit (atexit) after every program of length <= 5 over 6 operations; ownership graphs (two owning pointers per object, cycles and shared ownership inside a cycle included) on 3 objects x {forced collection, teardown, explicit del of each} x every address order; 4 arena addresses to fixpoint (gcc), 3 under ASan; ladders to 250 objects x 6 strides x 3 delete orders x 3 root patterns; *-sfx1 instances: the same alphabet with the last operation of the history in the state key (small universes)',
+    'thorough': 'ownership graphs on 3 and 4 objects; 5 arena addresses (gcc; global deadline 14 min, evidence says whether the fixpoint was reached), 4 under ASan to fixpoint; ladders to 300 objects; *-sfx1 / *-sfx2 instances: the last one / two operations of the history in the state key',
   },
   'assumptions': [
     'reclamation is observed through the destructor ledger, never predicted (conservative collection may retain)',
@@ -22,6 +22,8 @@ CHECK = {
   ],
   'instances': {
     'quick': [
+      # history suffix in the state key (lib/vf_bfs.h suffix=K): the last K operations keep histories apart that end in one visible state
+      G('addr3-sfx1', 'base', 'naddr=3', 'prop=C06', 'suffix=1'), G('addr4-sfx1-d6', 'base', 'naddr=4', 'prop=C06', 'suffix=1', 'depth=6'),
       G('addr4', 'base', 'naddr=4', 'prop=C06', 'depth=9'),
       G('addr5-d8', 'base', 'naddr=5', 'prop=C06', 'depth=8'),
       G('addr3', 'base', 'naddr=3', 'prop=C06'),
@@ -41,6 +43,8 @@ CHECK = {
       G('own3-temps2', 'base', 'mode=own', 'n=3', 'temps=2'), G('own3-temps3-asan', 'asan', 'mode=own', 'n=3', 'temps=3'), G('exit4-temps2', 'base', 'mode=exit', 'depth=4', 'temps=2'),
     ],
     'thorough': [
+      # history suffix in the state key (lib/vf_bfs.h suffix=K): the last K operations keep histories apart that end in one visible state
+      G('addr4-sfx1-d11', 'base', 'naddr=4', 'prop=C06', 'suffix=1', 'depth=11'), G('addr3-sfx2-d8', 'base', 'naddr=3', 'prop=C06', 'suffix=2', 'depth=8'),
       G('addr5', 'base', 'naddr=5', 'prop=C06', 'deadline=840'),
       G('addr4', 'base', 'naddr=4', 'prop=C06'),
       G('addr4-asan', 'asan', 'naddr=4', 'prop=C06'),
